@@ -97,7 +97,7 @@ def project_many(v, names):
         for n in names:
             if not n.isdigit() or not 0 <= int(n) < len(v):
                 raise NoRecord("no field " + n)
-        return {n: v[int(n)] for n in names}
+        return tuple(v[int(n)] for n in names)       # unnamed slots stay unnamed, in the order asked for
     if isinstance(v, list):
         return [project_many(x, names) for x in v]
     raise NoRecord("not a record")
